@@ -81,3 +81,10 @@ chk("C16", "exploration",
     "(including the root directory), symlink targets, device numbers and contents.",
     "Names are limited to what the host file system can hold (no '/', NUL, newline; <= 255 bytes). Timestamps and hard-link groups are not part of the statement and are not compared.",
     "round-trip differential through the real tools, exhaustive short strings", "3/C16")
+chk("C04", "exploration",
+    "An independent tar writer (vp/tarmodel.py) serialises generated trees in every supported dialect (v7, ustar with prefix, pre-POSIX, GNU long name/link, PAX path/linkpath/size/uid/gid/mtime, "
+    "base-256 and negative/large numbers, old GNU/0.0/0.1/1.0 sparse maps with random hole layouts, SCHILY and LIBARCHIVE xattrs, hard links before/after their targets, implicit parents, './', '' and '/' prefixes). "
+    "tar2sqfs (ASan) output is decoded by the independent parser and compared with the intended tree; sqfs2tar output is read by Python tarfile (binary-safe pax scan for xattrs) and must be accepted by GNU tar; "
+    "image -> tar -> image must preserve the tree and hard-link groups and the second round trip must be byte identical (images and archives); sqfs2tar -r/-X/-L variants are checked against the sub-tree expectation.",
+    "Trusted: vp/tarmodel.py, Python tarfile, GNU tar, vp/sqfsimg.py. One open finding is matched by key (xattr order flips on each round trip).",
+    "differential conversion against independent tar and SquashFS models", "3/C04")
